@@ -117,7 +117,23 @@ def run(ctx):
     for k in (kd, ku):
         feats[k.short.split("::")[-1]] = kernel_features(prog, flows, k)
     names = list(feats)
+    dd = feats.get("fast_gnp_random_graph_directed", {}).get("_diagonal_tests")
+    if dd is not None:
+        ctx.require(dd[0] >= 1 or dd == (0, 0), "R-C16-2", "feature|diagonal_skip_in_carry_loop", "directed kernel: the diagonal slot is stepped over inside the carry loop (%d test(s) inside, %d outside)" % dd,
+                    "the directed kernel tests for the diagonal slot only outside the carry loop (%d inside, %d outside): when a carry lands on the last row's diagonal (n-1, n-1) the step over it makes w = n without the loop condition being tested again, and the pair (n-1, n) is pushed -- a node `n` that must not exist" % dd, loc_str(kd.span))
+    KERNEL_EXPECTED = {
+        "fast_gnp_random_graph_directed": {"_comparisons": ["cursor<n", "cursor==row", "lp<0", "row<n"], "_diagonal_increment_on_equal": True, "_carry_guards_necessary": True},
+        "fast_gnp_random_graph_undirected": {"_comparisons": ["cursor<row", "lp<0", "row<n"], "_diagonal_increment_on_equal": None, "_carry_guards_necessary": True},
+    }
+    WHY = {"_comparisons": "the boundaries of the kernel's loop guards, push guard and skip guard (operands by role)", "_diagonal_increment_on_equal": "the cursor steps over the diagonal slot exactly when row == cursor", "_carry_guards_necessary": "the carry step runs only while both of its guards hold"}
+    for kn, exp in KERNEL_EXPECTED.items():
+        for fname, want in exp.items():
+            got = feats.get(kn, {}).get(fname)
+            ctx.require(got == want, "R-C16-2", "feature|%s|%s" % (kn.split("_")[-1], fname.strip("_")), "%s kernel: %s = %s" % (kn.split("_")[-1], fname.strip("_"), got),
+                        "%s kernel deviates from the published skipping scheme on `%s` (%s): found %s, expected %s -- a cursor or row that passes its bound by one makes the kernel emit a pair outside the grid (a node n, a self-loop) or loop without end" % (kn.split("_")[-1], fname.strip("_"), WHY[fname], got, want), loc_str(prog.one("random::" + kn).span))
     for fname in sorted(set(feats[names[0]]) | set(feats[names[1]])):
+        if fname.startswith("_"):
+            continue
         v0, v1 = feats[names[0]].get(fname), feats[names[1]].get(fname)
         expected = EXPECTED.get(fname)
         ok = v0 == v1 and (expected is None or v0 == expected)
@@ -293,6 +309,111 @@ def kernel_features(prog, flows, k):
                 ops.add(s.rv.j["op"].replace("WithOverflow", ""))
         op = "/".join(sorted(ops)) if ops else None
     f["carry_cursor_op"] = op
+    # the directed kernel walks the n x n grid including the diagonal and steps over slot (v, v).  After a carry the
+    # cursor can land on the diagonal of the NEW row, and stepping over it can push the cursor out of the row again
+    # (slot (n-1, n-1) -> w = n): so the diagonal test sits INSIDE the carry loop, whose condition is then re-tested
+    diag_in = diag_out = 0
+    if row is not None and cursor is not None:
+        for blk in k.normal_blocks():
+            if blk.term.k != "switch":
+                continue
+            at = fl.atom(blk.i)
+            te = panic.norm(at["test"]) if at else None
+            if isinstance(te, tuple) and te[0] == "binop" and te[1] in ("Eq", "Ne") and {fmt_desc(te[2]), fmt_desc(te[3])} == {k.local_name(row), k.local_name(cursor)}:
+                if carry and blk.i in carry:
+                    diag_in += 1
+                else:
+                    diag_out += 1
+    f["_diagonal_tests"] = (diag_in, diag_out)
+    # every ordering / equality test of the kernel, with its operands named by ROLE (row, cursor, n, lp) and written in
+    # one canonical form: "x<y" stands for the boundary between x < y and x >= y whichever way round and whichever
+    # polarity it is written (`v < n`, `n > v`, `!(v >= n)`); a boundary slip (`v <= n`) is the other boundary "n<v"
+    roles = {}
+    if row is not None:
+        roles[k.local_name(row)] = "row"
+    if cursor is not None:
+        roles[k.local_name(cursor)] = "cursor"
+    for i in range(1, k.arg_count + 1):
+        if k.local_ty(i) == "i32" and k.local_name(i):
+            roles[k.local_name(i)] = "n"
+    for l_ in k.locals:
+        if l_["ty"] == "f64" and l_["name"] and l_["i"] > k.arg_count:
+            dv = panic.norm(panic.expand_names(fl, ("place", l_["name"])))
+            if isinstance(dv, tuple) and dv[0] == "call" and dv[1].endswith("f64::ln") and dv[2] and dv[2][0][0] == "binop" and dv[2][0][3][0] == "place" and dv[2][0][3][1] in pf:
+                roles[l_["name"]] = "lp"
+
+    def opnd(d):
+        if isinstance(d, tuple) and d[0] == "place":
+            return roles.get(d[1], d[1])
+        if isinstance(d, tuple) and d[0] == "const":
+            c_ = const_f(d)
+            return "0" if c_ == 0.0 else fmt_desc(d).replace("const ", "")
+        return fmt_desc(d)[:40]
+
+    cmps = set()
+    eq_switches = []
+    cmp_switches = {}
+    for blk in k.normal_blocks():
+        if blk.term.k != "switch":
+            continue
+        at = fl.atom(blk.i)
+        te = panic.norm(at["test"]) if at else None
+        neg = False
+        while isinstance(te, tuple) and te[0] == "unop" and te[1] == "Not":
+            neg = not neg
+            te = te[2]
+        if not (isinstance(te, tuple) and te[0] == "binop" and te[1] in ("Lt", "Le", "Gt", "Ge", "Eq", "Ne") and at["ty"] == "bool"):
+            continue
+        a_, b_ = opnd(te[2]), opnd(te[3])
+        f_succ, t_succ = dict(at["targets"]).get(0), at["otherwise"]
+        if neg:
+            f_succ, t_succ = t_succ, f_succ
+        if te[1] in ("Eq", "Ne"):
+            key = "==".join(sorted([a_, b_]))
+            eq_succ = t_succ if te[1] == "Eq" else f_succ
+            eq_switches.append((blk.i, key, eq_succ))
+        else:
+            # canonical boundary and the successor on which "x<y" HOLDS
+            if te[1] == "Lt":
+                key, holds = "%s<%s" % (a_, b_), t_succ
+            elif te[1] == "Ge":
+                key, holds = "%s<%s" % (a_, b_), f_succ
+            elif te[1] == "Gt":
+                key, holds = "%s<%s" % (b_, a_), t_succ
+            else:
+                key, holds = "%s<%s" % (b_, a_), f_succ
+            cmp_switches.setdefault(key, []).append((blk.i, holds, (t_succ if holds == f_succ else f_succ)))
+        cmps.add(key)
+    f["_comparisons"] = sorted(cmps)
+    # the diagonal step: the cursor is incremented on the EQUAL outcome of row == cursor
+    diag_ok = None
+    for (bb_, key, eq_succ) in eq_switches:
+        if key == "cursor==row" and cursor is not None:
+            inc = [s_ for s_ in k.stmts() if s_.k == "assign" and s_.rv.k == "binop" and s_.rv.j["op"].startswith("Add") and root_local(k, s_.rv.ops[0]) == cursor and s_.rv.ops[1].is_const() and s_.rv.ops[1].const_int() == 1]
+            other = [y for y in k.succ(bb_) if y != eq_succ]
+            on_eq = any(s_.bb == eq_succ or (eq_succ is not None and s_.bb in k.reachable_from(eq_succ) and not (other and s_.bb in k.reachable_from(other[0], avoid=(eq_succ,)))) for s_ in inc)
+            direct_other = any(other and s_.bb == other[0] for s_ in inc)
+            diag_ok = (diag_ok is not False) and on_eq and not direct_other
+    f["_diagonal_increment_on_equal"] = diag_ok
+    # the carry step consumes the cursor only while BOTH its guards hold: with the holding edge of either guard deleted
+    # the subtraction is unreachable from the carry loop's header
+    nec = None
+    if carry and cursor is not None:
+        subs = [s_ for s_ in k.stmts() if s_.bb in carry and s_.k == "assign" and s_.rv.k == "binop" and s_.rv.j["op"].startswith("Sub") and root_local(k, s_.rv.ops[0]) in family]
+        hdr = min(carry) if carry else None
+        for blk_i in carry:
+            if all(k.dominates(blk_i, x) for x in carry):
+                hdr = blk_i
+        guards_in_carry = [(key, sw) for key, lst in cmp_switches.items() for sw in lst if sw[0] in carry]
+        if subs and guards_in_carry:
+            nec = True
+            for (key, (gbb, holds, fails)) in guards_in_carry:
+                # which outcome continues the loop?  the one from which the subtraction is reachable without leaving the loop
+                cont = holds if any(s_.bb in k.reachable_from(holds, avoid=tuple(x for x in range(len(k.blocks)) if x not in carry)) or s_.bb == holds for s_ in subs) else fails
+                reach = k.reach_avoiding_edges([(gbb, cont)], hdr)
+                if any(s_.bb in reach for s_ in subs):
+                    nec = False
+    f["_carry_guards_necessary"] = nec
     # push under row < n
     pushes = [t for t in calls if t.callee.short.endswith("Vec::push")]
     okp = False
